@@ -452,12 +452,24 @@ func randDSchema(r *rand.Rand) DSchema {
 		used := map[int]bool{}
 		usedName := map[string]bool{}
 		n := r.Intn(6)
+		// one message in four: many fields with sparse numbers a few hundred apart, declared in no particular order (number
+		// tables that grow while the message is being built)
+		sparse := r.Intn(4) == 0
+		if sparse {
+			n = 4 + r.Intn(8)
+		}
 		for i := 0; i < n; i++ {
 			num := []int{1, 2, 3, 15, 16, 127, 128, 2047, 2048, 16383, 16384, 536870911}[r.Intn(12)]
 			if r.Intn(2) == 0 {
 				num = 1 + r.Intn(40)
 			}
+			if sparse {
+				num = []int{3000, 2999, 900, 901, 1800, 1801, 2700, 3600, 1023, 1024, 1025, 4095, 4096, 5000, 65535, 65536, 70000}[r.Intn(17)]
+			}
 			name := []string{"id", "name", "value", "items", "extra", "data_map", "child", "k", "long_field_name_x", "Value", "iD"}[r.Intn(11)]
+			if sparse {
+				name = fmt.Sprintf("f_%d", num)
+			}
 			if used[num] || usedName[strings.ToLower(strings.ReplaceAll(name, "_", ""))] {
 				continue
 			}
